@@ -2,6 +2,9 @@
 """Regenerates MANIFEST.json from the table below (kept in one place so it stays valid)."""
 import json, subprocess
 CHECKS = {
+ "C02": dict(level="exploration", tech="crash-point + torn-file injection on a real node store with gate-controlled disk tasks, followed by real restarts (NetworkBuilder::build_node, same identity) judged by a history oracle",
+             text="Random histories are crashed at random scheduler steps (arbitrary causally closed subsets of completed disk tasks); for an incomplete write the real ciphertext is cut at every byte prefix (<= 1 KiB) or at boundary + random cuts, and the node is really restarted over each variant; served bytes, durability of completed writes/removals, listing and index consistency are judged.",
+             note="Crash granularity is the scheduler step; a write in progress is modelled as truncate + arbitrary ciphertext prefix; harness links ant-node with default features (shipped configuration).", ref="DESIGN.md §4 C02"),
  "C01": dict(level="exploration", tech="history + reference-model oracle on a real node SwarmDriver/NodeRecordStore driven through the real command handlers; guarded gates park the spawned disk-write / delete tasks and a seeded scheduler releases them in arbitrary cross-key order",
              text="Random multi-key histories of puts / overwrites / identical re-puts / removes / reads run on the real store (encryption on, small caches) while the scheduler permutes command handling and disk-task completion across keys; every read is judged against the values ever handed for that key, and at quiescent points every key is judged for exact bytes, contains, listing and file presence.",
              note="Same-key tasks and commands keep spawn order (the statement promises independence across keys only); the harness scheduler and gate hook are trusted to preserve causality.", ref="DESIGN.md §4 C01"),
